@@ -233,6 +233,10 @@ theorem v2Name_long_length {sfx : Str → Str} {k : Str} (h : k.length > 63) (hs
     ((safeKey k).take (63 - (sfx k).length)).length = 63 - (sfx k).length := by
   rw [List.length_take, safeKey_length]; omega
 
+/-- a valid DNS-subdomain prefix is in particular plain (non-empty, no `/`) -/
+theorem plain_of_valid {p : Str} (h : validPrefix p = true) : PlainPrefix p :=
+  ⟨validPrefix_ne_nil h, validPrefix_noslash h⟩
+
 /-! ## a handler's v2 name versus the `kopf-managed` marker -/
 
 theorem safeKey_markKey_ne {d : Bool} {k k' : Str} (h : safeKey k ≠ safeKey k') :
